@@ -473,3 +473,98 @@ func (r *real) raceD(o Op) (ans string, uids string) {
 	}
 	return first + " || " + p.head() + " | " + r.deliveries(int(busSends.Load()-k1)), part(a, "ids")
 }
+
+// splitRaceF separates a racef op into its two subscriptions and the release order.
+func splitRaceF(o Op) (s1, s2 Op, order string) {
+	s1, s2 = Op{Op: "sub"}, Op{Op: "sub"}
+	for _, t := range o.Opts {
+		switch {
+		case strings.HasPrefix(t, "sname="):
+			s1.Opts = append(s1.Opts, "name="+t[6:])
+		case strings.HasPrefix(t, "srm="):
+			s1.Opts = append(s1.Opts, "rm="+t[4:])
+		case t == "suo":
+			s1.Opts = append(s1.Opts, "uo")
+		case strings.HasPrefix(t, "tname="):
+			s2.Opts = append(s2.Opts, "name="+t[6:])
+		case strings.HasPrefix(t, "trm="):
+			s2.Opts = append(s2.Opts, "rm="+t[4:])
+		case t == "tuo":
+			s2.Opts = append(s2.Opts, "uo")
+		case strings.HasPrefix(t, "order="):
+			order = t[6:]
+		}
+	}
+	return
+}
+
+// racefOp wraps two subscriptions whose Bus.Listen calls overlap into a scenario op.
+func racefOp(n1 string, o1 []string, n2 string, o2 []string, order string) Op {
+	o := Op{Op: "racef", Opts: []string{"sname=" + n1}}
+	for _, t := range o1 {
+		if t == "uo" {
+			o.Opts = append(o.Opts, "suo")
+		} else if strings.HasPrefix(t, "rm=") {
+			o.Opts = append(o.Opts, "s"+t)
+		}
+	}
+	o.Opts = append(o.Opts, "tname="+n2)
+	for _, t := range o2 {
+		if t == "uo" {
+			o.Opts = append(o.Opts, "tuo")
+		} else if strings.HasPrefix(t, "rm=") {
+			o.Opts = append(o.Opts, "t"+t)
+		}
+	}
+	o.Opts = append(o.Opts, "order="+order)
+	return o
+}
+
+// raceF: two subscribers are inside Bus.Listen at the same time - both held at bus.listen.beforeRegister
+// (the listener is built, not yet in the bus's list), then released one after the other in the given
+// order. Both registrations must take effect: each subscriber gets its seed and every later write.
+func (r *real) raceF(o Op) string {
+	s1, s2, order := splitRaceF(o)
+	const point = "bus.listen.beforeRegister"
+	n1, n2 := r.seedCount(s1), r.seedCount(s2)
+	armedPoint.Store(point)
+	sb1, ready1 := r.openParked(s1)
+	select {
+	case <-parkedCh:
+	case <-time.After(waitBound):
+		armedPoint.Store("")
+		return "!subscriber-did-not-reach-" + point
+	}
+	armedPoint2.Store(point)
+	sb2, ready2 := r.openParked(s2)
+	select {
+	case <-parkedCh2:
+	case <-time.After(waitBound):
+		armedPoint2.Store("")
+		releaseCh <- struct{}{}
+		return "!subscriber-did-not-reach-" + point
+	}
+	release := func(rel chan struct{}, ready chan struct{}) bool {
+		rel <- struct{}{}
+		select {
+		case <-ready:
+			return true
+		case <-time.After(waitBound):
+			return false
+		}
+	}
+	var ok bool
+	if order == "21" {
+		ok = release(releaseCh2, ready2) && release(releaseCh, ready1)
+		r.register(sb2)
+		r.register(sb1)
+	} else {
+		ok = release(releaseCh, ready1) && release(releaseCh2, ready2)
+		r.register(sb1)
+		r.register(sb2)
+	}
+	if !ok {
+		return "!subscriber-did-not-return"
+	}
+	return fmt.Sprintf("seed=%s seed2=%s", showList(sb1.take(n1)), showList(sb2.take(n2)))
+}
